@@ -386,7 +386,9 @@ OnDone(m, o) ==
     ELSE
     LET n == OpName(t.op)
         acc == n \in {"resmut", "resset", "resno", "ins", "mut", "set", "noreact", "trig", "rm", "xrm"}
-        m1a == Chk(m, t.ns = t.exp, IF acc THEN "C14" ELSE "C01", "op caused the wrong number of trigger dispatches")
+        m1a0 == Chk(m, t.ns = t.exp, IF acc THEN "C14" ELSE "C01", "op caused the wrong number of trigger dispatches")
+        \* an explicit resource trigger call is also one of C14's "explicit trigger calls"
+        m1a == IF t.ns # t.exp /\ n = "res" THEN V(m1a0, "C14", "op caused the wrong number of trigger dispatches") ELSE m1a0
         m1 == IF t.ns # t.exp /\ n = "ins" /\ t.op[2] \notin m.aliveE
               THEN V(m1a, "C18", "an insertion on a despawned entity dispatched a reaction") ELSE m1a
         left == OwedAt(m1, Len(m1.stack))
